@@ -29,7 +29,9 @@ fn main() {
         std::process::exit(2);
     }
     let args = util::Args::parse(&argv[2..]);
-    util::silence_panics();
+    if std::env::var_os("VERIF_SHOW_PANICS").is_none() {
+        util::silence_panics();
+    }
     match argv[1].as_str() {
         "c01" => c01::main(&args),
         "c05" => c05::main(&args),
